@@ -22,7 +22,7 @@ def api_binary(san, buf_units, hbuf_units):
     return wbuild.build(name, san, srcs, defines=defs, events=True, log=log)
 
 
-def run_api(chk, prop, variants, san="asan", nshards=16, extra_args=None, stall_s=12.0, crash_is_violation=True):
+def run_api(chk, prop, variants, san="asan", nshards=16, extra_args=None, stall_s=20.0, crash_is_violation=True):
     """variants: list of (buf_units, hbuf_units).  Returns (counters, distinct, samples)."""
     tot_c, tot_d, samples = {}, {}, []
     for (bu, hu) in variants:
